@@ -204,6 +204,11 @@ def wf_ir(draw, c=None):
                     "publish": pub_list(b),
                     "do": exits,
                 })
+            if c["retry_expr"] and c["retry"] and draw(st.integers(0, 2)) == 0:
+                # a retry policy that depends on the loop counter: every visit has its own count and delay
+                bt["retry"] = {"count": E(["ctx_rsub", "n", bound + draw(st.integers(0, 1))], ll, draw(st.integers(0, 3)))}
+                if draw(st.booleans()):
+                    bt["retry"]["delay"] = E(["ctx_plus", "n", draw(st.integers(1, 2))], ll, draw(st.integers(0, 3)))
             tasks[b] = bt
         tasks[names[p]]["next"].append({"when": draw(conds(c, lp)), "do": [body[0]], "publish": pub_list(names[p])})
         ir["loop"] = {"body": body, "entry": names[p], "bound": bound}
